@@ -13,6 +13,7 @@ EXPLANATION = (
     "table insert by id != self; (4) ORDER — ascending sort on the full 32-byte XOR distance, then take(count); (5) REPLY — the "
     "merged local answer is deduplicated, never contains the local node, sorted, truncated, requester dropped; every DHTNode "
     "built for a reply names its peer in one identifier domain."
+    ' (6) closed world over every inbound handler: the count of a decoded FindNode reaching the table lookup (followed through parameters) is capped at <= 20 in any spelling (min / if-else / clamp); the bucket scan may be an iterator chain without cutting adapters; key-based sorts need the full [u8; 32] key.'
 )
 NOT_DECIDED = "the numerical XOR ordering itself (library Ord on [u8;32]); table contents after arbitrary histories"
 ASSUMPTIONS = ["Ord on [u8; 32] is lexicographic", "Vec::retain / iter().any behave as documented"]
